@@ -49,10 +49,24 @@ func checkC10Loop(c C05Case, o *vcore.Obs) error {
 	appCommits := 0
 	commitsBy := map[string]int{}
 	commitIDs := map[string][]int64{} // instance -> LMDB transaction ids of its application's commits
+	heldPending := map[int]bool{} // instances whose application transaction is still open (commits during a later step)
 	for oi, op := range c.Ops {
 		before := lm.LastTxnID(f.nodes[op.Inst%c.N].Env.Env)
 		if err := f.exec(oi, op); err != nil {
 			return err
+		}
+		for i := range heldPending {
+			if f.held[i] == nil {
+				// it has committed meanwhile (while the loop of that instance ran on)
+				delete(heldPending, i)
+				appCommits++
+				commitsBy[f.nodes[i].Name]++
+				commitIDs[f.nodes[i].Name] = append(commitIDs[f.nodes[i].Name], f.lastAppTxn[i])
+			}
+		}
+		if op.Kind == "app" && f.held[op.Inst%c.N] != nil {
+			heldPending[op.Inst%c.N] = true
+			continue
 		}
 		if op.Kind == "app" && lm.LastTxnID(f.nodes[op.Inst%c.N].Env.Env) != before {
 			appCommits++
